@@ -104,18 +104,19 @@ class Timeline:
         return bisect.bisect_right(self.all_bounds, t)
 
     def active(self, key, t) -> list[tuple]:
-        return [w for w in self.w.get(key, ()) if w[0] < t < w[1]]
+        return [w for w in self.w.get(key, ()) if w[0] <= t < w[1]]   # half-open [start, end)
 
     def touches(self, key, lo, hi) -> bool:
         """Does any window of `key` intersect (or touch) the closed interval [lo, hi]?"""
         return any(w[0] <= hi and w[1] >= lo for w in self.w.get(key, ()))
 
     def last_edges(self, key, t) -> list[tuple]:
-        """The fault edges on `key` at the latest instant strictly before t: [(edge, window)]."""
+        """The fault edges on `key` at the latest instant <= t (edges at t itself have fired before anything
+        that is judged at t, see FaultWorld._tie): [(edge, window)]."""
         best, out = -1, []
         for w in self.w.get(key, ()):
             for edge, tt in (("start", w[0]), ("end", w[1])):
-                if tt < t and tt < INF:
+                if tt <= t and tt < INF:
                     if tt > best:
                         best, out = tt, [(edge, w)]
                     elif tt == best:
@@ -131,13 +132,27 @@ class Timeline:
 # --------------------------------------------------------------------------
 
 class Sink(Entity):
+    def __init__(self, key, world):
+        # display names are not identifiers: in the same_names variant every sink is called "sink"
+        super().__init__("sink" if world.sc.get("same_names") else key)
+        self.w, self.key = world, key
+
+    def handle_event(self, event):
+        self.w.log(self.key, "arr", event.context["metadata"].get("m"))
+        return None
+
+
+class Relay(Entity):
+    """Emits, in-run, a job for a target stamped with an exact future instant (a message sent earlier with a fixed delay)."""
+
     def __init__(self, name, world):
         super().__init__(name)
         self.w = world
 
     def handle_event(self, event):
-        self.w.log(self.name, "arr", event.context["metadata"].get("m"))
-        return None
+        md = event.context["metadata"]
+        return [Event(time=Instant(md["at"]), event_type="job", target=self.w.node_ent[md["to"]],
+                      context={"metadata": {"m": md["m"]}})]
 
 
 class Tick(Entity):
@@ -371,8 +386,9 @@ class FaultWorld:
         self.end_ns = sc["end_ms"] * 1_000_000
         ents: list = []
         self.tick = Tick("tick")
+        self.relay = Relay("relay", self)
         self._clock_ent = self.tick
-        ents.append(self.tick)
+        ents += [self.tick, self.relay]
         self.node_ent: dict[str, Entity] = {}
         self.node_kind: dict[str, str] = {}
         self.resources: dict[str, Resource] = {}
@@ -437,7 +453,9 @@ class FaultWorld:
                 for l in net["links"]:
                     a, b = nn[l["a"]], nn[l["b"]]
                     lat = ConstantLatency(l["base_us"] / 1e6)
-                    link = NetworkLink(name=f"{netname}:{a.name}->{b.name}", latency=lat, packet_loss_rate=l["loss"])
+                    # link names are labels, not identifiers (every datacenter_network() link is "datacenter")
+                    lname = "dc" if sc.get("same_names") else f"{netname}:{a.name}->{b.name}"
+                    link = NetworkLink(name=lname, latency=lat, packet_loss_rate=l["loss"])
                     nw.add_link(a, b, link)
                     self.links[(netname, a.name, b.name)] = link
                     self.link_cfg[(netname, a.name, b.name)] = (lat, l["loss"], ns_of_ms(l["base_us"] / 1000.0))
@@ -498,8 +516,22 @@ class FaultWorld:
                 skip = sc["nodes"][int(base)].get("skip", [])
                 for k, t in enumerate(bounds):
                     if t < self.end_ns and not any(lo * 1_000_000 <= t <= hi * 1_000_000 for lo, hi in skip):
-                        self.jobs.append((t, e, m0 + k))
                         self.job_times[name][m0 + k] = t
+                        if edge_jobs == "relay" and k % 2 == 1:
+                            # created in-run, 3 ms / 400 ms / 2.5 s before it is due (before or inside the window)
+                            t_send = max(1, t - (3_000_000, 400_000_000, 2_500_000_000)[(k // 2) % 3])
+                            evs.append(Event(time=Instant(t_send), event_type="relay", target=self.relay,
+                                             context={"metadata": {"to": name, "at": t, "m": m0 + k}}))
+                        else:
+                            self.jobs.append((t, e, m0 + k))
+                        ncfg = sc["nodes"][int(base)]
+                        if ncfg["kind"] == "holder" and "skip" in ncfg:
+                            # avoidance mode (nothing may ever queue outside a window): the extra job replaces the
+                            # holder's regular jobs that would overlap it
+                            near = ncfg["hold_us"] * 1000 + 1_000_000
+                            self.jobs = [j for j in self.jobs if not (j[1] is e and j[2] < m0 and abs(j[0] - t) <= near)]
+                            for mm in [mm for mm, tt in self.job_times[name].items() if mm < m0 and abs(tt - t) <= near]:
+                                del self.job_times[name][mm]
         for t, e, m in sorted(self.jobs, key=lambda x: (x[0], x[1].name, x[2])):
             evs.append(Event(time=Instant(t), event_type="job", target=e, context={"metadata": {"m": m}}))
         if net is not None:
@@ -594,6 +626,17 @@ class FaultWorld:
         return obj, [(("loss", "net", src, dst), s, e, f["rate"])], [
             (f"fault.loss.activate:{src}->{dst}", s), (f"fault.loss.deactivate:{src}->{dst}", e)]
 
+    def _tie(self, key, t, what) -> bool:
+        """Is the order of an observation at instant t against the fault edges of `key` at the same instant
+        undetermined?  On the repository every fault event is created while the Simulation is constructed, and
+        everything judged here is caused by an event created afterwards (scheduled after construction, or
+        emitted in-run), so by the engine's FIFO-by-creation tie rule the fault edges at t have already fired:
+        windows are exactly half-open, an observation at t == end sees the fault gone and one at t == start
+        sees it in effect.  Never undetermined; the exact ties are counted."""
+        if self.tl.is_boundary(key, t):
+            self.c["probe.boundary_exact." + what] += 1
+        return False
+
     # ---- attribution of a broken expectation to the precise mechanism
     def _attr(self, key, t, fclass, symptom, allow_start=False) -> str:
         edges = self.tl.last_edges(key, t)
@@ -621,9 +664,7 @@ class FaultWorld:
         key = ("node", name)
         if not self.tl.has(key):
             return
-        if self.tl.is_boundary(key, t):
-            self.c["probe.activity_on_boundary"] = 1
-            return
+        self._tie(key, t, "activity")
         active = self.tl.active(key, t)
         if not active:
             return
@@ -636,7 +677,7 @@ class FaultWorld:
             # which is a different mechanism from "work queued before the window keeps flowing"
             mm = m[0] if isinstance(m, list) else m
             arr = self.job_times[name].get(mm)
-            if arr is not None and not self.tl.is_boundary(key, arr) and self.tl.active(key, arr):
+            if arr is not None and self.tl.active(key, arr):
                 sig = self._attr(key, arr, "NodeFault", "missing")
                 if sig.startswith("not-in-effect"):
                     sig = f"down-target-ran/{kind}/{fk}" + sig[len("not-in-effect/NodeFault"):]
@@ -660,7 +701,7 @@ class FaultWorld:
     def on_grant(self, res):
         key = ("cap", res.name)
         t = self.now_ns()
-        if not self.tl.has(key) or self.tl.is_boundary(key, t):
+        if not self.tl.has(key) or self._tie(key, t, "grant"):
             return
         active = self.tl.active(key, t)
         if not active:
@@ -677,8 +718,6 @@ class FaultWorld:
         for rname, res in self.resources.items():
             key = ("cap", rname)
             cfg = self.res_cfg[rname]
-            if self.tl.is_boundary(key, t):
-                continue
             active = self.tl.active(key, t)
             h = self.held(rname)
             if active:
@@ -735,10 +774,11 @@ class FaultWorld:
         tl = self.tl
         for (netname, a, b), link in self.links.items():
             lat0, loss0, _ = self.link_cfg[(netname, a, b)]
+            lname = f"{netname}:{a}->{b}"
             nw = self.nets[netname]
             # partition
             key = ("part", netname, a, b)
-            if not tl.is_boundary(key, t):
+            if True:
                 active = tl.active(key, t)
                 obs = nw.is_partitioned(a, b)
                 if active:
@@ -758,7 +798,7 @@ class FaultWorld:
                                     f"{bool(active)} (active windows {[w[2] for w in active]})")
             # loss
             key = ("loss", netname, a, b)
-            if not tl.is_boundary(key, t):
+            if True:
                 active = tl.active(key, t)
                 obs = link.packet_loss_rate
                 if active:
@@ -777,19 +817,19 @@ class FaultWorld:
                         cw = [c for c in self.cancelled_windows.get(key, ()) if c[0] <= t <= c[1]]
                         if cw:
                             raise Violation(f"{P}/cancel-ineffective/FaultSchedule/{cw[0][4]}",
-                                            f"{link.name}.packet_loss_rate={obs} at t={t}ns set by a cancelled fault")
+                                            f"{lname}.packet_loss_rate={obs} at t={t}ns set by a cancelled fault")
                         raise Violation(f"{P}/bystander-state-changed/NetworkLink/packet_loss_rate",
-                                        f"{link.name}.packet_loss_rate={obs}, configured {loss0}; no fault names it")
+                                        f"{lname}.packet_loss_rate={obs}, configured {loss0}; no fault names it")
                     if symptom == "lingering" and tl.all_ended_by(key, t) and obs != loss0 and not self.cancelled_windows.get(key):
                         raise Violation(f"{P}/not-restored/InjectPacketLoss/packet_loss_rate",
-                                        f"{link.name}.packet_loss_rate={obs} at t={t}ns after every window ended "
+                                        f"{lname}.packet_loss_rate={obs} at t={t}ns after every window ended "
                                         f"(configured {loss0})")
                     sig = self._attr(key, t, "InjectPacketLoss", symptom, allow_start=True)
-                    raise Violation(f"{P}/{sig}", f"{link.name}.packet_loss_rate={obs} at t={t}ns, expected {want} "
+                    raise Violation(f"{P}/{sig}", f"{lname}.packet_loss_rate={obs} at t={t}ns, expected {want} "
                                     f"(active windows {[w[2] for w in active]})")
             # latency object
             key = ("lat", netname, a, b)
-            if not tl.is_boundary(key, t):
+            if True:
                 active = tl.active(key, t)
                 is_cfg = link.latency is lat0
                 if active:
@@ -799,16 +839,20 @@ class FaultWorld:
                         cw = [c for c in self.cancelled_windows.get(key, ()) if c[0] <= t <= c[1]]
                         if cw:
                             raise Violation(f"{P}/cancel-ineffective/FaultSchedule/{cw[0][4]}",
-                                            f"{link.name}.latency replaced at t={t}ns by a cancelled fault")
+                                            f"{lname}.latency replaced at t={t}ns by a cancelled fault")
                         raise Violation(f"{P}/bystander-state-changed/NetworkLink/latency",
-                                        f"{link.name}.latency is not the configured object; no fault names it")
+                                        f"{lname}.latency is not the configured object; no fault names it")
                     sig = self._attr(key, t, "InjectLatency", "missing" if active else "lingering")
-                    raise Violation(f"{P}/{sig}", f"{link.name}.latency is {'the configured object' if is_cfg else 'not the configured object'} "
+                    raise Violation(f"{P}/{sig}", f"{lname}.latency is {'the configured object' if is_cfg else 'not the configured object'} "
                                     f"at t={t}ns (active windows {[w[2] for w in active]})")
 
-    def check_state(self, t, force=False):
-        if self.tl.any_boundary(t):
+    def check_state(self, t, force=False, after_fault_event=False):
+        if after_fault_event and self.tl.any_boundary(t):
+            # the only undetermined instant: between two fault edges that share this instant
             return
+        if self.tl.any_boundary(t):
+            self.c["probe.boundary_exact.state_checked"] += 1
+            force = True
         self._check_resources(t)
         seg = self.tl.segment(t)
         if force or seg != self._last_seg:
@@ -833,7 +877,7 @@ class FaultWorld:
         lat0, loss0, base_ns = self.link_cfg[(netname, a, b)]
         if at != b:
             raise Violation(f"{P}/probe-misdelivered/Network/wrong-destination", f"probe {pid} {a}->{b} arrived at {at}")
-        if not tl.is_boundary(kp, sent):
+        if not self._tie(kp, sent, "probe"):
             act = tl.active(kp, sent)
             if act:
                 sig = self._attr(kp, sent, "NetworkPartition", "missing")
@@ -841,9 +885,9 @@ class FaultWorld:
                     sig = "probe-delivered-in-window/NetworkPartition/" + "+".join(sorted({w[4] for w in act}))
                 raise Violation(f"{P}/{sig}", f"probe {pid} {a}->{b} sent at {sent}ns inside partition window(s) "
                                 f"{[w[2] for w in act]} was delivered at {t}ns")
-        elif tl.has(kp):
-            self.c["probe.probe_sent_on_boundary"] = 1
-        if not tl.is_boundary(kl, sent):
+            if not act and any(w[1] == sent for w in tl.w.get(kp, ())):
+                self.c["probe.boundary_exact.probe_delivered_sent_at_heal_instant"] = 1
+        if not self._tie(kl, sent, "probe"):
             act = [w for w in tl.active(kl, sent) if w[4] >= 1.0]
             if act:
                 sig = self._attr(kl, sent, "InjectPacketLoss", "missing")
@@ -851,7 +895,7 @@ class FaultWorld:
                     sig = "probe-delivered-in-window/InjectPacketLoss/rate-1"
                 raise Violation(f"{P}/{sig}", f"probe {pid} {a}->{b} sent at {sent}ns inside loss(1.0) window(s) "
                                 f"{[w[2] for w in act]} was delivered at {t}ns")
-        if not tl.is_boundary(kd, sent):
+        if not self._tie(kd, sent, "probe"):
             act = tl.active(kd, sent)
             extra = (t - sent) - base_ns
             if act:
@@ -863,6 +907,11 @@ class FaultWorld:
                         sig = "latency-not-added/InjectLatency" + sig[len("not-in-effect/InjectLatency"):]
                     raise Violation(f"{P}/{sig}", f"probe {pid} {a}->{b} sent at {sent}ns inside latency window(s) "
                                     f"{[(w[2], w[4]) for w in act]} took base+{extra}ns, needs >= base+{need}ns")
+                most = sum(w[4] for w in act)
+                if extra > most + LAT_TOL_NS:
+                    raise Violation(f"{P}/latency-excess/InjectLatency/more-than-all-active-windows-inject",
+                                    f"probe {pid} {netname} {a}->{b} sent at {sent}ns took base+{extra}ns but the window(s) "
+                                    f"active on this link {[(w[2], w[4]) for w in act]} inject at most {most}ns")
                 self.c["probe.latency_added_observed"] = 1
                 if len(act) > 1:
                     self.c["probe.overlap_held.latency_under_two_windows"] = 1
@@ -882,7 +931,7 @@ class FaultWorld:
             self._fault_fired(et, t)
         elif et == "job" and type(ev) is Event:
             self._job_delivered(ev, t)
-        self.check_state(t)
+        self.check_state(t, after_fault_event=et.startswith("fault."))
 
     def _fault_fired(self, et, t):
         self.fired[(et, t)] += 1
@@ -898,30 +947,34 @@ class FaultWorld:
         key = ("node", name)
         if self.node_ent.get(name) is not tgt or not self.tl.has(key) and not self.cancelled_windows.get(key):
             return
-        if self.tl.is_boundary(key, t):
-            self.c["probe.job_on_boundary"] = 1
-            return
+        self._tie(key, t, "job")
         m = ev.context["metadata"]["m"]
         act = self.tl.active(key, t)
         if act:
             self.judged_in_window += 1
             self.c["probe.job_dropped_in_down_window"] += 1
+            if any(w[0] == t for w in act):
+                self.c["probe.boundary_exact.job_dropped_at_window_start"] += 1
             if len(act) > 1:
                 self.c["probe.overlap_held.node_down_under_two_windows"] = 1
             if any(edge == "end" for edge, _ in self.tl.last_edges(key, t)):
                 self.c["probe.overlap_held.node_still_down_after_other_window_ended"] = 1
             return
-        if any(c[0] == t or c[1] == t for c in self.cancelled_windows.get(key, ())):
-            return
+        if any(w[1] == t for w in self.tl.w.get(key, ())):
+            self.c["probe.boundary_exact.job_due_at_window_end"] += 1
         if self.tl.last_edges(key, t):
             self.c["probe.job_after_window_end"] = 1
         if tgt.kind == "server":
             return  # accepted into the queue; completion judged after the run
         lg = self.logs.get(name, ())
         if not any(e[0] == t and e[1] == "enter" and e[2] == m for e in lg[-6:]):
-            sig = self._attr(key, t, "NodeFault", "lingering")
+            if any(w[1] == t for w in self.tl.w.get(key, ())):
+                sig = f"up-target-skipped-event/{tgt.kind}/at-window-end-instant"
+            else:
+                sig = self._attr(key, t, "NodeFault", "lingering")
             if sig.startswith("lingering"):
-                sig = f"up-target-skipped-event/{tgt.kind}/" + ("after-window" if self.tl.last_edges(key, t) else "before-any-window")
+                sig = f"up-target-skipped-event/{tgt.kind}/" + (
+                    "after-window" if self.tl.last_edges(key, t) else "before-any-window")
             raise Violation(f"{P}/{sig}", f"{name} ({tgt.kind}) did not handle job m={m} delivered at t={t}ns although no "
                             f"crash/pause window covers that instant")
 
@@ -955,7 +1008,8 @@ class FaultWorld:
     def post_checks(self):
         t_end = self.now_ns()
         tl = self.tl
-        self.check_state(t_end, force=True)
+        # the engine delivers one event past end_time; if that was a fault edge the instant may be half-applied
+        self.check_state(t_end, force=True, after_fault_event=t_end > self.sim_end_ns)
         # (ii) queue-fronted targets: every job accepted while up is eventually handled
         for name, ent in self.node_ent.items():
             key = ("node", name)
@@ -963,8 +1017,11 @@ class FaultWorld:
                 continue
             entered = {e[2] for e in self.logs.get(name, ()) if e[1] == "enter"}
             for m, t in self.job_times[name].items():
-                if tl.is_boundary(key, t) or tl.active(key, t) or m in entered:
+                if tl.active(key, t) or m in entered:
                     continue
+                if any(w[1] == t for w in tl.w.get(key, ())):
+                    raise Violation(f"{P}/up-arrival-never-processed/QueuedResource/at-window-end-instant",
+                                    f"{name} never handled job m={m} delivered at t={t}ns, exactly when a window ended")
                 if any(c[0] <= t <= c[1] for c in self.cancelled_windows.get(key, ())):
                     raise Violation(f"{P}/cancel-ineffective/FaultSchedule/{self.cancelled_windows[key][0][4]}",
                                     f"{name} never handled job m={m} delivered at {t}ns inside a cancelled fault's window")
@@ -976,10 +1033,10 @@ class FaultWorld:
                 continue
             lat0, loss0, base_ns = self.link_cfg[(netname, a, b)]
             kp, kl = ("part", netname, a, b), ("loss", netname, a, b)
-            if tl.is_boundary(kp, sent) or tl.is_boundary(kl, sent) or tl.is_boundary(("lat", netname, a, b), sent):
-                continue
             if tl.active(kp, sent):
                 self.c["probe.probe_dropped_by_partition"] += 1
+                if any(w[0] == sent for w in tl.active(kp, sent)):
+                    self.c["probe.boundary_exact.probe_dropped_sent_at_partition_start"] = 1
                 self.judged_in_window += 1
                 continue
             if tl.active(kl, sent):
